@@ -260,6 +260,7 @@ def build(seed, tier, focus='all'):
         c.variant("Off"),
         c.variant("Level", style="newtype", t=U),
         c.variant("MaybeName", style="newtype", t=O),
+        c.variant("Verbose", style="newtype", t=B),          # an inner type with a bare-word meaning but no value-for-absent
         c.variant("Custom", style="struct", fields=[field("low", U), field("high", U, default="trait"), field("label", O)]),
         c.variant("Hidden", skip=True),
         c.variant("HiddenData", style="newtype", t=V, skip=True),
